@@ -20,10 +20,6 @@ def known_class(j, cat, text):
         return "KF-WAV-GSM-PAD"
     if f.major == 0x0F and cat in ("partition", "frames", "eof", "stale"):
         return "KF-XI-HEADER"
-    if f.major == 0x0E and j.sr < 10 and j.n == 0 and cat in ("reopen", "snapshot", "roundtrip"):
-        return "KF-PVF-TINY-FILE"
-    if f.major == 0x0E and j.sr < 10 and cat == "snapshot" and text.startswith("crash-point image after 0 frames cannot be opened"):
-        return "KF-PVF-TINY-FILE"       # the 11-byte image of a header update issued before any audio
     if f.major == 0x02 and f.codec in (0x40, 0x41, 0x42) and cat == "snapshot":
         return "KF-DWVW-BUFFERED"
     return None
